@@ -510,13 +510,13 @@ def make_group(rng: random.Random, ctx: GenCtx) -> Optional[Dict[str, Any]]:
 
     canon_yaml, pmap = finish(contracts, False)
     yaml_text, _ = finish(contracts, True)
-    dets = sorted(rng.sample(ctx.detectors, rng.randrange(1, 5)))
+    dets = rng.sample(ctx.detectors, rng.randrange(1, 6))  # registration order is part of the draw
     op = {
         "op": "group",
         "contracts": sorted(set(c["cid"] for c in contracts)),
         "yaml": yaml_text,
         "canon_yaml": canon_yaml,
-        "canon": canon_yaml + "|" + ",".join(dets),
+        "canon": canon_yaml,
         "paths": pmap,
         "cmap": {c["name"]: c["cid"] for c in contracts},
         "dets": dets,
